@@ -5,6 +5,7 @@
 //!
 //! One request per stdin line, one answer per stdout line (see DESIGN.md Appendix B).
 
+mod conc;
 mod net;
 mod resp;
 mod store;
